@@ -157,6 +157,8 @@ pub struct GenCfg {
     pub mixed_imports: bool,
     /// make the module shape "reference heavy": every kind of reference site present
     pub ref_heavy: bool,
+    /// do not use exnref as a value type (keeps the known exnref round-trip defect out of other monitors)
+    pub avoid_exnref: bool,
 }
 impl GenCfg {
     pub fn default_for(rng: &mut Rng) -> GenCfg {
@@ -1158,7 +1160,7 @@ pub fn generate(rng: &mut Rng, prof: Profile, cfg: &GenCfg) -> GenModule {
     if has(flags, F_GC) {
         vts.extend([VT::AnyRef, VT::EqRef, VT::I31Ref, VT::StructRef, VT::ArrayRef]);
     }
-    if has(flags, F_EXN) {
+    if has(flags, F_EXN) && !cfg.avoid_exnref {
         vts.push(VT::ExnRef);
     }
 
